@@ -36,6 +36,13 @@ theorem normalize_power_power (a : Arr ℂ) (p : ℝ) (hp : 0 ≤ p) (ha : 0 < a
   rw [← arrSum_eq, ← hS]
   field_simp
 
+/-- **`normalize_power(array)` — the call that omits the target — yields unit power**: the default of `power` is regenerated from the
+signature (`Gen.npDefaultPower`), so a changed default stops this proof instead of only moving a pin. -/
+theorem normalize_power_default_power (a : Arr ℂ) (ha : 0 < arrSum (intensity (R := ℝ) a)) :
+    arrSum (intensity (R := ℝ) (normalizePowerDefault (R := ℝ) a)) = 1 := by
+  have h := normalize_power_power a 1 zero_le_one ha
+  simpa [normalizePowerDefault, Gen.npDefaultPower, RealLike.ofInt] using h
+
 /-- **normalize_power does not depend on the scale of its input** (no tolerance, no "already normalised" shortcut): multiplying
 the amplitude by any `c > 0` — nano-scale or giga-scale units alike — gives exactly the same normalised array, for every
 target power. Together with `normalize_power_power` (power exactly `p` for every non-zero input power, however close to `p` it
